@@ -420,15 +420,24 @@ impl TryFrom<super::safe::SchemaMut> for Schema {
 			// Safety:
 			// - UnionVariantsPerTypeLookup won't ever read `per_type_lookup` of the other
 			//   nodes, so there are no aliasing issues.
+			// - The table is built before `per_type_lookup` gets mutably borrowed, because
+			//   building it takes shared references to the variants' nodes, and (for
+			//   schemas built from nodes) the union may be one of its own variants.
 			unsafe {
-				match *curr_storage_node_ptr {
-					SchemaNode::Union(Union {
-						ref variants,
-						ref mut per_type_lookup,
-					}) => {
-						*per_type_lookup = UnionVariantsPerTypeLookup::new(variants);
+				let new_per_type_lookup = match *curr_storage_node_ptr {
+					SchemaNode::Union(Union { ref variants, .. }) => {
+						Some(UnionVariantsPerTypeLookup::new(variants))
 					}
-					_ => {}
+					_ => None,
+				};
+				if let Some(new_per_type_lookup) = new_per_type_lookup {
+					if let SchemaNode::Union(Union {
+						ref mut per_type_lookup,
+						..
+					}) = *curr_storage_node_ptr
+					{
+						*per_type_lookup = new_per_type_lookup;
+					}
 				}
 				curr_storage_node_ptr = curr_storage_node_ptr.add(1);
 			}
